@@ -13,17 +13,19 @@ cd $wt || exit 2
 [ -s out/patch.diff ] || { echo "no patch.diff"; exit 2; }
 git diff > /tmp/seed_eval_$id.diff
 # make sure the worktree currently has exactly the patch applied
-git checkout -q -- . && git apply out/patch.diff || { echo "patch does not apply to a clean worktree"; exit 2; }
+git checkout -q -- . && git clean -fdq -- src docs && git apply out/patch.diff || { echo "patch does not apply to a clean worktree"; exit 2; }
 export CARGO_TARGET_DIR=$wt/target
 t=$(cargo test --offline 2>&1 | grep -E "test result" | head -1)
 bash out/demo.sh > /tmp/seed_eval_$id.patched.log 2>&1; rc_p=$?
-git apply -R out/patch.diff
+git apply -R out/patch.diff; git clean -fdq -- src docs
 bash out/demo.sh > /tmp/seed_eval_$id.clean.log 2>&1; rc_c=$?
 git apply out/patch.diff
 echo "tests_with_patch: $t"
 echo "demo_patched_rc=$rc_p demo_clean_rc=$rc_c"
 cp out/patch.diff out/demo.sh $out/ 2>/dev/null; cp out/notes.md $out/ 2>/dev/null
-if [ $rc_p -eq 0 ] || [ $rc_c -ne 0 ] || ! echo "$t" | grep -q "137 passed"; then echo "NOT CONFIRMED"; fi
+# the patch may bring unit tests of its own: at least the 137 existing ones pass and none fails
+np=$(echo "$t" | sed -n 's/.* \([0-9][0-9]*\) passed; 0 failed.*/\1/p')
+if [ $rc_p -eq 0 ] || [ $rc_c -ne 0 ] || [ -z "$np" ] || [ "$np" -lt 137 ]; then echo "NOT CONFIRMED"; fi
 # run my checks against it
 if [ -n "$(git -C /repo status --porcelain --untracked-files=no)" ]; then echo "/repo not clean"; exit 2; fi
 git -C /repo apply $out/patch.diff || { echo "patch does not apply to /repo"; exit 2; }
@@ -35,5 +37,5 @@ for c in $checks; do
   echo "check $c rc=$rc :: $first"
   res="$res $c:$rc"
 done
-git -C /repo checkout -- .
+git -C /repo checkout -- .; git -C /repo clean -fdq -- src docs     # a patch may add files
 echo "RESULT $id tests=[$t] demo_patched=$rc_p demo_clean=$rc_c checks=[$res ]"
